@@ -106,13 +106,13 @@ def harness_cfg(c):
     if c["cls"] == "SimpleTaskPool":
         p = c["plan"]
         return {"cls": c["cls"], "size": c["size"],
-                "simple": {"imm": p["imm"], "onc": p["onc"], "ecb": p["ecb"], "ccb": p["ccb"], "bad": list(p["bad"]), "shape": len(c["name"]) % 3}}
+                "simple": {"imm": p["imm"], "onc": p["onc"], "ecb": p["ecb"], "ccb": p["ccb"], "bad": list(p["bad"]), "shape": len(c["name"]) % 4}}
     reqs = []
     for n, t in enumerate(c["tpl"]):
         # the argument shape (no args / one positional / two positionals + a keyword) is invisible to the model
         reqs.append({"kind": t["kind"], "num": t["num"], "nc": t["nc"], "gname": t["gname"] or None, "imm": t["imm"],
                      "onc": t["onc"], "ecb": t["ecb"], "ccb": t["ccb"], "bad": list(t["bad"]), "notcoro": t["notcoro"],
-                     "shape": (n + len(c["name"])) % 3})
+                     "shape": (n + len(c["name"])) % 4})
     return {"cls": c["cls"], "size": c["size"], "reqs": reqs}
 
 
